@@ -170,6 +170,10 @@ type server struct {
 	status   int32        //server status
 	// clients stores the  online clients
 	clients map[string]*client
+	// conns holds every accepted connection from newClient until internalClose (registered or not), so that
+	// Stop can close and await the ones that have not completed CONNECT as well
+	conns    map[*client]struct{}
+	stopping bool
 	// offlineClients store the expired time of all disconnected clients
 	// with valid session(not expired). Key by clientID
 	offlineClients  map[string]time.Time
@@ -852,6 +856,7 @@ func defaultServer() *server {
 		exitChan:       make(chan struct{}),
 		exitedChan:     make(chan struct{}),
 		clients:        make(map[string]*client),
+		conns:          newConnSet(),
 		offlineClients: make(map[string]time.Time),
 		willMessage:    make(map[string]*willMsg),
 		retainedDB:     retained_trie.NewStore(),
@@ -1096,6 +1101,8 @@ func (srv *server) serveWebSocket(ws *WsServer) {
 	}
 }
 
+func newConnSet() map[*client]struct{} { return make(map[*client]struct{}) }
+
 func (srv *server) newClient(c net.Conn) (*client, error) {
 	srv.configMu.Lock()
 	cfg := srv.config
@@ -1131,6 +1138,17 @@ func (srv *server) newClient(c net.Conn) (*client, error) {
 		cli:      client,
 	}
 	client.setConnecting()
+	srv.mu.Lock()
+	if srv.stopping {
+		srv.mu.Unlock()
+		_ = c.Close()
+		return nil, errors.New("server is stopping")
+	}
+	if srv.conns == nil {
+		srv.conns = newConnSet() // servers built by hand in tests
+	}
+	srv.conns[client] = struct{}{}
+	srv.mu.Unlock()
 
 	return client, nil
 }
@@ -1535,9 +1553,10 @@ func (srv *server) Stop(ctx context.Context) error {
 		}
 		// close all idle clients
 		srv.mu.Lock()
-		chs := make([]chan struct{}, len(srv.clients))
+		srv.stopping = true
+		chs := make([]chan struct{}, len(srv.conns))
 		i := 0
-		for _, c := range srv.clients {
+		for c := range srv.conns {
 			chs[i] = c.closed
 			i++
 			c.Close()
